@@ -416,6 +416,18 @@ namespace verif
                 for (auto it = jar.begin(); it != jar.end(); it++)
                     ++steps2;
                 V_CHECK(steps2 == want.size(), "C17/jar-postincrement", "post-increment iteration visits " + std::to_string(steps2) + " cookies");
+                {
+                    // ... and what post-increment hands back is the position it left: `cur = it++; use(*cur)`
+                    std::multiset<std::pair<std::string, std::string>> by_post;
+                    for (auto it = jar.begin(); it != jar.end() && by_post.size() <= want.size() + 2;)
+                    {
+                        auto cur = it++;
+                        by_post.insert({ cur->name, cur->value });
+                    }
+                    std::multiset<std::pair<std::string, std::string>> want_ms2(want.begin(), want.end());
+                    V_CHECK(by_post == want_ms2, "C17/jar-postincrement-value",
+                            "walking the jar of \"" + printable(header, 200) + "\" with `cur = it++` does not yield each stored pair once (" + std::to_string(by_post.size()) + " cookies seen, " + std::to_string(want_ms2.size()) + " stored)");
+                }
                 for (auto& nme : names)
                 {
                     V_CHECK(jar.has(nme), "C17/jar-has", "has(\"" + printable(nme) + "\") false");
